@@ -6,7 +6,7 @@
 (* (ROWS rows of WB bytes; whole words while they fit, then a byte-wise    *)
 (* tail of up to WB-1 bytes, rows beyond the key left as they were in the  *)
 (* local variable).  Key bytes are symbolic and non-zero (byte i = i), the *)
-(* local variable starts as garbage ("G").  Invariant: accepted iff the    *)
+(* local variable starts as garbage (-1) .  Invariant: accepted iff the    *)
 (* documented range; the loaded tweakey equals the zero-padded key; a      *)
 (* rejected call leaves the object unchanged.                              *)
 (* Shipped = TRUE models the pinned tree: the word is truncated to 16 bits *)
@@ -26,13 +26,14 @@ MaxBlocks(e) == IF e = "plain" THEN 3 ELSE 2
 Valid(e, n) == n >= BSZ /\ n <= MaxBlocks(e) * BSZ
 
 KeyByte(i) == i          \* symbolic non-zero key bytes 1..len
+Garbage == 0 - 1         \* what an unassigned local holds (an integer, so that every comparison is well-typed)
 
 (* load one tweakey block from key bytes off+1..off+n (n <= BSZ) *)
 LoadBlock(off, n) ==
     IF n >= BSZ THEN [i \in 1..BSZ |-> KeyByte(off + i)]
     ELSE LET rowval(r) ==     \* r = 0..ROWS-1
                  LET idx == r * WB
-                 IN  IF idx >= n THEN (IF Shipped THEN [j \in 1..WB |-> "G"] ELSE [j \in 1..WB |-> 0])
+                 IN  IF idx >= n THEN (IF Shipped THEN [j \in 1..WB |-> Garbage] ELSE [j \in 1..WB |-> 0])
                      ELSE IF idx + WB <= n
                      THEN [j \in 1..WB |-> IF Shipped /\ j > 2 THEN 0 ELSE KeyByte(off + idx + j)]
                      ELSE [j \in 1..WB |-> IF idx + j <= n /\ j < WB /\ ~(Shipped /\ j > 2)
